@@ -1335,7 +1335,17 @@ fn gen_bits_case(r: &mut Rng, stats: &mut HashMap<String, usize>) -> (String, Ve
     }
     cmds.push(format!("vpred {}", (r.next() as u128) | ((r.next() as u128) << 64)));
     let len = r.below(5);
-    let l: Vec<String> = (0..len).map(|_| r.below(k + 3).to_string()).collect();
+    // positions inside, just outside, a word size further (64 + p), and repeated
+    let mut lv: Vec<usize> = Vec::new();
+    for _ in 0..len {
+        let p = match r.below(6) {
+            0 => 64 * r.range(1, 2) + r.below(k + 1),
+            1 if !lv.is_empty() => *r.pick(&lv[..]),
+            _ => r.below(k + 3),
+        };
+        lv.push(p);
+    }
+    let l: Vec<String> = lv.iter().map(|p| p.to_string()).collect();
     cmds.push(format!("vlist {}", l.join(" ")).trim_end().to_string());
     let nn = *r.pick(&[0usize, 1, 2, 5, 8, 31, 32, 63, 64]);
     cmds.push(format!("vnew {nn}"));
